@@ -1,7 +1,10 @@
 package scen
 
 import (
+	crand "crypto/rand"
+	"errors"
 	"fmt"
+	"io"
 	"runtime"
 	"sort"
 	"sync"
@@ -310,6 +313,28 @@ func runUUID(e *Env) {
 				return
 			}
 		}
+		// a string that goes on after a complete UUID is not a UUID
+		tail := []string{"0", "a", "00", "\n", " ", "}", "; --", "\x00", "-0", "0123456789abcdef0123456789abcdef"}[tp.Next(10)]
+		if p, err := gocql.ParseUUID(u.String() + tail); err == nil {
+			k.Violate("C19", "C19/parse-accepts-trailing-input", "ParseUUID(%q) succeeded (%s): the string continues after the 32nd hex digit", u.String()+tail, p)
+			return
+		}
+		// a random UUID is version 4 / RFC 4122 - or an error - whatever the random source does
+		if tp.Chance(1, 4) {
+			failAt := tp.Next(4)
+			orig := crand.Reader
+			crand.Reader = &flakyReader{r: orig, failAt: failAt, short: tp.Chance(1, 2)}
+			for i := 0; i < 6; i++ {
+				ru, err := gocql.RandomUUID()
+				if err == nil && (ru.Version() != 4 || ru.Variant() != gocql.VariantIETF) {
+					crand.Reader = orig
+					k.Violate("C19", "C19/wrong-version-or-variant", "RandomUUID call %d returned %s (version %d variant %d) without error; the random source failed on its read number %d", i, ru, ru.Version(), ru.Variant(), failAt)
+					return
+				}
+			}
+			crand.Reader = orig
+			k.Probe("uuid.random-source-failure")
+		}
 		// a string that is a UUID except for one character that is not a hex digit is rejected
 		str := []rune(u.String())
 		pos := tp.Next(len(str))
@@ -356,4 +381,23 @@ func uuidCassandraLess(a, b gocql.UUID) bool {
 		}
 	}
 	return false
+}
+
+// flakyReader fails (or delivers nothing) on its failAt-th read.
+type flakyReader struct {
+	r      io.Reader
+	n      int
+	failAt int
+	short  bool
+}
+
+func (f *flakyReader) Read(p []byte) (int, error) {
+	f.n++
+	if f.n-1 == f.failAt {
+		if f.short {
+			return 0, io.ErrUnexpectedEOF
+		}
+		return 0, errors.New("random source unavailable")
+	}
+	return f.r.Read(p)
 }
